@@ -35,6 +35,8 @@ type Expected struct {
 	AveragesUsed map[fat2.PTicker]uint64
 	SnapshotPaid map[factom.FAAddress]uint64
 	SnapshotRan  bool
+	// UnpricedStakes counts (holder, asset) pairs left out of a snapshot valuation because the asset has no rate.
+	UnpricedStakes int
 	// Impostors: staking records naming a top holder's id but signed by another key (must earn nothing).
 	Impostors []string
 	// OutOfBand: OPR outside the SPR band before 2.0.2 (the block must simply be unrated).
@@ -135,13 +137,7 @@ func (m *Model) Step(prev Bal, b *forge.Block, rs RateSource, burnRCD [32]byte) 
 					oprPay = append(oprPay, paid{g.OPR.GetAddress(), g.Payout(), fmt.Sprintf("%x", g.EntryHash)})
 				}
 			}
-			sh := gb.WinnersShortHashes()
-			for _, s := range sh {
-				if s != "" {
-					m.PrevWinners = append([]string{}, sh...)
-					break
-				}
-			}
+			m.PrevWinners = append([]string{}, gb.WinnersShortHashes()...)
 		}
 	}
 	if len(b.SPR) > 0 {
@@ -304,8 +300,12 @@ sprDone:
 					sr = rs.Rates(L)
 				}
 			}
-			// (a snapshot height without rates in [2.0, 2.0.2) is a recorded finding; workloads avoid it)
-			if len(sr) > 0 || h >= e.V202 {
+			// before 2.0.2 a snapshot height without rates borrows the rates of the block before it; when
+			// that one has none either, the balances are snapshotted but nobody can be valued or paid
+			if len(sr) == 0 && h < e.V202 {
+				sr = rs.Rates(h - 1)
+			}
+			{
 				m.SnapPast = m.SnapCur
 				m.SnapCur = B.Clone()
 				x.SnapshotRan = true
@@ -315,6 +315,9 @@ sprDone:
 				}
 				var list []st
 				for a, cur := range m.SnapCur {
+					if len(sr) == 0 {
+						break
+					}
 					past, ok := m.SnapPast[a]
 					if !ok {
 						continue
@@ -333,6 +336,7 @@ sprDone:
 							continue
 						}
 						if (sr[t] == 0 || sr[fat2.PTickerUSD] == 0) && h >= e.V202 {
+							x.UnpricedStakes++
 							continue
 						}
 						c, ok := Convert(false, v, sr[t], sr[t], sr[fat2.PTickerUSD], sr[fat2.PTickerUSD])
